@@ -183,6 +183,28 @@ pub fn wfull(tr: &mut Tr, seed: u64, rounds: usize) -> (u64, u64) {
                 if !tw.dead {
                     tw.flush(tr);
                 }
+                // bulk copies into a bounded destination from a bounded source: the error must blame
+                // the side that actually ran out
+                let mut tw = TW::new(tr, &cfg, rng.random_range(0..=2usize));
+                let nsrc = 8 * rng.random_range(1..=3usize);
+                let src_bytes = crate::gen::rand_image(&mut rng, nsrc);
+                let rk = [("buf", "strict"), ("buf", "inf"), ("unbuf", "strict")][rng.random_range(0..3)];
+                let rw = if rk.0 == "unbuf" { 64 } else { crate::factory::READER_WORDS[rng.random_range(0..4)] };
+                let rcfg = RCfg { le, w: rw, kind: rk.0, backend: rk.1, wrap: "none" };
+                let mut rd = TRd::new(tr, &rcfg, &src_bytes);
+                for _ in 0..4 {
+                    if rd.dead || tw.dead {
+                        break;
+                    }
+                    let n = rng.random_range(0..300u64);
+                    if rng.random_bool(0.5) {
+                        rd.copy_to(tr, &mut tw, n);
+                    } else {
+                        rd.copy_from(tr, &mut tw, n);
+                    }
+                    tests += 1;
+                }
+                rd.drop_obj(tr);
             }
         }
     }
